@@ -122,10 +122,12 @@ def fire (W : Which) (c : Cfg α n) (d : Dat α n) (i : Fin n) : Dat α n :=
   let d3 := bump d2 i
   if W = .acc ∧ c.autoreset then forward c d3 else d3
 
-def check (W : Which) (c : Cfg α n) (d : Dat α n) : Dat α n :=
-  match firstBad W c d with
+/-- nothing found: nothing happens -/
+def react (W : Which) (c : Cfg α n) (d : Dat α n) : Option (Fin n) → Dat α n
   | none => d
   | some i => fire W c d i
+
+def check (W : Which) (c : Cfg α n) (d : Dat α n) : Dat α n := react W c d (firstBad W c d)
 
 /-! ### 3. semantics of the atoms of the generated skeletons -/
 
@@ -140,19 +142,19 @@ structure Mach (α : Type) (n : Nat) where
 
 def fin? (n k : Nat) : Option (Fin n) := if h : k < n then some ⟨k, h⟩ else none
 
-def badGuardText : Which → String
+abbrev badGuardText : Which → String
   | .pos => "mju_isBad(qpos[i])"
   | .vel => "mju_isBad(d->qvel[i])"
   | .acc => "mju_isBad(d->qacc[i])"
-def warnKey : Which → String
+abbrev warnKey : Which → String
   | .pos => "mj_warning(d, mjWARN_BADQPOS, i)"
   | .vel => "mj_warning(d, mjWARN_BADQVEL, i)"
   | .acc => "mj_warning(d, mjWARN_BADQACC, i)"
-def incrText : Which → String
+abbrev incrText : Which → String
   | .pos => "d->warning[mjWARN_BADQPOS].number++"
   | .vel => "d->warning[mjWARN_BADQVEL].number++"
   | .acc => "d->warning[mjWARN_BADQACC].number++"
-def infoText : Which → String
+abbrev infoText : Which → String
   | .pos => "d->warning[mjWARN_BADQPOS].lastinfo = i"
   | .vel => "d->warning[mjWARN_BADQVEL].lastinfo = i"
   | .acc => "d->warning[mjWARN_BADQACC].lastinfo = i"
@@ -161,6 +163,18 @@ def bumpM (s : Mach α n) : Mach α n :=
   match s.i with
   | some i => { s with d := bump s.d i }
   | none => { s with junk := true }
+
+/-- `d->warning[W].lastinfo = i` -/
+def infoM (s : Mach α n) : Mach α n :=
+  match s.i with
+  | some i => { s with d := { s.d with lastinfo := (i.val : Int) } }
+  | none => { s with junk := true }
+
+/-- `mju_isBad(vec[i])` -/
+def badAt (c : Cfg α n) (s : Mach α n) : Bool :=
+  match s.i with
+  | some i => c.isBad s.d.vec[i.val]
+  | none => false
 
 /-- meaning of an atom / stage key on the machine -/
 def atomSem (W : Which) (c : Cfg α n) (t : String) (s : Mach α n) : Mach α n :=
@@ -182,10 +196,7 @@ def atomSem (W : Which) (c : Cfg α n) (t : String) (s : Mach α n) : Mach α n 
   else if t = warnKey W then bumpM s
   else if t = "mj_resetData" then { s with d := reset c s.d }
   else if t = incrText W then { s with d := { s.d with number := s.d.number + 1 } }
-  else if t = infoText W then
-    match s.i with
-    | some i => { s with d := { s.d with lastinfo := (i.val : Int) } }
-    | none => { s with junk := true }
+  else if t = infoText W then infoM s
   else if t = "mj_forward" then { s with d := forward c s.d }
   else { s with junk := true }
 
@@ -194,10 +205,7 @@ def atomSem (W : Which) (c : Cfg α n) (t : String) (s : Mach α n) : Mach α n 
 def guardSem (W : Which) (c : Cfg α n) (t : String) (s : Mach α n) : Bool :=
   if t = "i < nq" then decide (s.j < s.cnt)
   else if t = "j < nv" then decide (s.j < s.cnt)
-  else if t = badGuardText W then
-    match s.i with
-    | some i => c.isBad s.d.vec[i.val]
-    | none => false
+  else if t = badGuardText W then badAt c s
   else false
 
 def sem (W : Which) (c : Cfg α n) : Prog.Sem (Mach α n) := { atom := atomSem W c, guard := guardSem W c }
